@@ -138,7 +138,8 @@ func runC03Case(r *ev.Run, c c03Case) c03Dry {
 		}
 		exp[i] = e
 	}
-	committed := make([]int, len(msgs)) // accepted commits per message
+	committed := make([]int, len(msgs)) // accepted and acknowledged commits per message
+	queuedUnacked := make([]int, len(msgs)) // taken by the server, but the 2yz reply never left (connection lost)
 	for si, s := range sr.Sessions {
 		cmds, commits, _ := s.Snapshot()
 		if si == 0 {
@@ -189,7 +190,12 @@ func runC03Case(r *ev.Run, c c03Case) c03Dry {
 			if unrenderable[which] {
 				viol("committed-unrenderable", fmt.Sprintf("message %d cannot be rendered at all, yet something was committed for it", which), nil)
 			}
-			committed[which]++
+			if cm.ReplyLost {
+				queuedUnacked[which]++
+				r.Count("commits_whose_reply_was_lost", 1)
+			} else {
+				committed[which]++
+			}
 			// the envelope must be the message's own
 			if cm.From != fmt.Sprintf("m%d@sender.example", which) {
 				viol("commit-wrong-envelope", fmt.Sprintf("content of message %d committed under reverse-path %s", which, cm.From), nil)
@@ -243,8 +249,8 @@ func runC03Case(r *ev.Run, c c03Case) c03Dry {
 		if sr2 != nil {
 			break // IsDelivered now speaks about the retry
 		}
-		if committed[i] > 1 {
-			viol("committed-twice:"+c.FailClass, fmt.Sprintf("message %d was committed %d times in one call", i, committed[i]), nil)
+		if committed[i]+queuedUnacked[i] > 1 {
+			viol("committed-twice:"+c.FailClass, fmt.Sprintf("message %d was committed %d times in one call (%d of them with the reply lost on the way)", i, committed[i]+queuedUnacked[i], queuedUnacked[i]), nil)
 		}
 		if !m.IsDelivered() && committed[i] >= 1 && m.SendError() != nil && strings.Contains(m.SendError().Error(), "i/o timeout") {
 			// the client's own deadline fired while the reply was on its way: SMTP cannot decide this
@@ -458,7 +464,7 @@ func c03Spec(r *ev.Run, stream string, idx, mi int) gen.MsgSpec {
 
 func runC03(r *ev.Run, rep *ev.ReplayDoc) ev.Summary {
 	sum := ev.Summary{
-		Rule: "batches of 1-3 seeded messages (C01 shapes, canonical CRLF; for every fourth batch the server sends all its replies as multi-line replies) sent through Send / DialAndSend / SendWithSMTPClient under single faults enumerated per batch: every content producer failing before/inside/after its data; the transport failing writes at offsets of every class inside each message's DATA phase (first byte, header block, every boundary line, part bodies, closing boundary, terminating dot) taken from a dry run; every reply class {4yz,5yz,drop} at every command position; plus fault pairs (producer x reply, transport x reply) for small batches; every transport fault, every producer fault inside or after its data and the 4yz/drop replies at DATA / end-of-data / RSET are also run with a retry (the undelivered *Msg values are sent again by a new call over a healthy connection: each must be committed once, complete). Also pairs of overlapping calls on one established connection (the second Send starts while the first call is inside its DATA phase). Oracle compares the reference server's commit log with the complete renderings. non-trivial = a fault was injected; distinct by (batch, fault)",
+		Rule: "batches of 1-3 seeded messages (C01 shapes, canonical CRLF; for every fourth batch the server sends all its replies as multi-line replies) sent through Send / DialAndSend / SendWithSMTPClient under single faults enumerated per batch: every content producer failing before/inside/after its data; the transport failing writes at offsets of every class inside each message's DATA phase (first byte, header block, every boundary line, part bodies, closing boundary, terminating dot) taken from a dry run; every reply class {4yz,5yz,drop} at every command position, plus 'queued, but the connection dies before the 250 leaves' at end-of-data; plus fault pairs (producer x reply, transport x reply) for small batches; every transport fault, every producer fault inside or after its data and the 4yz/drop replies at DATA / end-of-data / RSET are also run with a retry (the undelivered *Msg values are sent again by a new call over a healthy connection: each must be committed once, complete). Also pairs of overlapping calls on one established connection (the second Send starts while the first call is inside its DATA phase). Oracle compares the reference server's commit log with the complete renderings. non-trivial = a fault was injected; distinct by (batch, fault)",
 		Assumptions: []string{
 			"expected renderings are produced by the harness after the call with all producer faults disarmed (rendering is repeatable, C11)",
 			"what counts as committed is what the reference server received between 354 and CRLF.CRLF and acknowledged with 2yz",
@@ -503,7 +509,11 @@ func runC03(r *ev.Run, rep *ev.ReplayDoc) ev.Summary {
 		}
 		// (iii) reply scripts: one deviation at every position
 		for pos := 0; pos < dry.steps; pos++ {
-			for _, k := range devKinds {
+			kinds := devKinds
+			if pos < len(dry.stepVerbs) && dry.stepVerbs[pos] == "DATA-END" {
+				kinds = append(append([]string{}, devKinds...), "queue-then-drop")
+			}
+			for _, k := range kinds {
 				c := mk()
 				c.Script = []scriptEntry{{Index: pos, Kind: k}}
 				verb := "?"
